@@ -113,6 +113,14 @@ def showsOutput : Input → Outcome → Bool
   | _, .trap => true
   | _, _ => false
 
+/-- Are the statements that FOLLOW the program's terminating action executed (and their output
+shown)?  Only when there is no terminating action: the exit function does not return to the program
+(the host function unwinds the call), a panic is an exit, a trap aborts the call.  So nothing after
+the exit call is observable and the first requested code is the one reported. -/
+def runsPastEnd : Input → Outcome → Bool
+  | _, .normal => true
+  | _, _ => false
+
 /-- The property: the status the statement demands for an outcome. -/
 def Expected (o : Outcome) (s : Nat) : Prop :=
   match o with
